@@ -416,7 +416,7 @@ fn main() {
             }
         }
     }
-    let nr = if san { 0 } else { ctx.budget(10000, 200000) };
+    let nr = if san { 0 } else { ctx.cbudget(10000, 200000) };
     for _ in 0..nr {
         if let Some(mut rng) = ctx.random_case() {
             let a = rng.range_i64(-1000, 1000);
